@@ -14,7 +14,7 @@ def specRead (mk : Mk) (cuts : String) (got : String) (what : String) : List Spe
   (if isCrash got then [⟨"no-panic", what, s!"decoding crashed: {(tk got 160)}"⟩] else []) ++
   (match mk.expectText with
    | some e => if !isCrash got ∧ got' ≠ e then
-       [⟨"roundtrip", what ++ "-" ++ String.singleton mk.kind ++ "-" ++ (mk.signer.splitOn ":").head!,
+       [⟨"roundtrip", what ++ "-" ++ String.singleton mk.kind ++ "-" ++ sigBase mk.signer,
          s!"decode(encode) differs from the packet that was built (cuts {cuts}): want {(tk e 300)} got {(tk got' 300)}"⟩] else []
    | none => []) ++
   (match mk.refText with
@@ -50,6 +50,7 @@ def stepC03 (st : St) (op : String) (got : String) : StepResult St :=
     let r := runMki f got
     { st := { st with last := r.built, mkExpected := some r.expected }, expected := none, spec := r.spec, cov := r.cov,
       nontrivial := (r.built.map (·.nontrivial)).getD false }
+  | ["tz", _] => { st := st, expected := some "ok", cov := ["tz"] }
   | ["cmp"] =>
     match st.mkExpected with
     | none => { st := st, expected := some "skip" }
